@@ -29,6 +29,10 @@ def script(mk_listener, mk_client, mk_selector, settle):
     settle()
     out.append(("send-empty-after-refused", cls(lambda: c.send(b""))))
     out.append(("send-empty-after-refused-2", cls(lambda: c.send(b""))))
+    out.append(("shutdown-after-refused", cls(lambda: c.shutdown(socket.SHUT_RDWR))))
+    c.close()
+    c = mk_client()
+    out.append(("shutdown-never-connected", cls(lambda: c.shutdown(socket.SHUT_RDWR))))
     c.close()
     # 2. established connection
     l, addr = mk_listener()
@@ -72,6 +76,25 @@ def script(mk_listener, mk_client, mk_selector, settle):
     sel.unregister(c)
     c.close()
     out.append(("send-on-closed-socket", cls(lambda: c.send(b"z"))))
+    # 5. shutdown(): fine on an established socket (the peer reads end-of-file, own sends fail), fine after the peer's FIN
+    c = mk_client()
+    c.connect_ex(addr)
+    settle()
+    srv = None
+    for _ in range(50):
+        try:
+            srv, _a = l.accept()
+            break
+        except BlockingIOError:
+            settle()
+    srv.setblocking(False)
+    out.append(("shutdown-established", cls(lambda: c.shutdown(socket.SHUT_RDWR))))
+    settle()
+    out.append(("peer-recv-after-shutdown", cls(lambda: srv.recv(10))))
+    out.append(("send-after-own-shutdown", cls(lambda: c.send(b"abc"))))
+    out.append(("shutdown-after-peer-fin", cls(lambda: srv.shutdown(socket.SHUT_RDWR))))
+    c.close()
+    srv.close()
     l.close()
     return out
 
